@@ -36,7 +36,7 @@ import re
 
 from vxlib.verusunit import Unit, FnSpec
 from vxlib.rustsrc import Source, Lost
-from contracts import parser_funnel, lookups, elemcheck, valueparse
+from contracts import parser_funnel, lookups, elemcheck, valueparse, lexer
 
 F = 'autosar-data/src/parser.rs'
 IMPL_P = r"impl<'a>\s+ArxmlParser<'a>"
@@ -58,8 +58,6 @@ impl<'a> ArxmlLexer<'a> {
     pub uninterp spec fn measure(&self) -> int;
     pub uninterp spec fn same_buf(&self, o: &Self) -> bool;
 }
-#[verifier::external_body]
-pub proof fn axiom_measure_nonneg(l: &ArxmlLexer) requires l.inv() ensures l.measure() >= 0 {}
 
 #[derive(Clone, Copy)]
 pub struct Element { pub opaque: u64 }
@@ -87,9 +85,6 @@ pub fn vx_path_empty() -> (r: VxPath) { unimplemented!() }
 // ElementType::ROOT lies inside the tables (closed fact, part of `ground lib tables_modes`)
 #[verifier::external_body]
 pub fn vx_root_type() -> (r: ElementType) ensures r.typ < n_dt() { unimplemented!() }
-// ArxmlLexer::new: unit lexer proves that the fresh lexer satisfies its invariant (for buffers up to isize::MAX bytes, which every slice is)
-#[verifier::external_body]
-pub fn vx_lexer_new<'b>(buffer: &'b [u8], filename: PathBuf) -> (r: ArxmlLexer<'b>) ensures r.inv(), r.buffer == buffer { unimplemented!() }
 impl<'a> ArxmlParser<'a> {
     // parse_file_header sets the file version from the schema location; `strict` is not touched (frame scan F4)
     #[verifier::external_body]
@@ -179,7 +174,6 @@ ROOT_ELEMENT = (r'let new_element = ElementRaw \{\s*parent: ElementOrModel::None
                 r'file_membership: HashSet::with_capacity\(0\),\s*comment: stored_comment,\s*\};')
 R43 = [
     (r'ArxmlParserError::\w+ \{[^{}]*\}', lambda m: 'ArxmlParserError::VxOther(0)', 'R36'),
-    (r'ArxmlLexer::new\(self\.buffer, self\.filename\.clone\(\)\)', lambda m: 'vx_lexer_new(self.buffer, self.filename.clone())', 'R43'),
     (ROOT_ELEMENT, lambda m: 'let new_element = ElementRaw { elemname: ElementName::Autosar, elemtype: vx_root_type(), content: Vec::new(), attributes, comment: stored_comment };', 'R43'),
     (r'ElementType::ROOT', lambda m: 'vx_root_type()', 'R29'),
     (r'Cow::from\(""\)', lambda m: 'vx_path_empty()', 'R43'),
@@ -229,14 +223,14 @@ def make_unit(repo_dir):
     vp = {f.label: f for f in valueparse.make_unit(repo_dir).fns}
     fn = FnSpec('parse_element', F, impl=IMPL_P, ret='r', body_sub=R42,
                 sig_sub=[(r'mut path: Cow<str>', 'mut path: VxPath')],
-                requires=['raw_element.elemtype.typ < n_dt()', 'raw_element.content@.len() == 0', 'old(lexer).inv()'],
-                ensures=['final(self).same_core(old(self))', 'final(lexer).inv()', 'final(lexer).measure() <= old(lexer).measure()',
+                requires=['raw_element.elemtype.typ < n_dt()', 'raw_element.content@.len() == 0', 'old(lexer).inv()', 'old(lexer).measure() >= 0'],
+                ensures=['final(self).same_core(old(self))', 'final(lexer).inv()', 'final(lexer).measure() <= old(lexer).measure() && final(lexer).measure() >= 0',
                          'r matches Ok(e) ==> name_of(e) == raw_element.elemname && type_of(e) == raw_element.elemtype',
                          'old(self).strict ==> (r matches Ok(e) ==> node_ok(content_of(e), raw_element.elemtype, %s) && named_ok(content_of(e), raw_element.elemtype, %s) && choice_ok(content_of(e), raw_element.elemtype, %s))' % (V, V, V)],
                 decreases='old(lexer).measure()',
                 loops={0: dict(invariant=INV, decreases='lexer.measure() + (if first_round { 1int } else { 0int })')},
-                proofs=[dict(at='body_start', text='proof { axiom_tables(); axiom_measure_nonneg(&*lexer); }\nlet ghost mut first_round = true;\nlet ghost mut last_elem: int = -1;'),
-                        dict(after=r'let arxmlevent = self\.next\(lexer\)\?;', text='proof { first_round = false; axiom_measure_nonneg(&*lexer); }'),
+                proofs=[dict(at='body_start', text='proof { axiom_tables(); }\nlet ghost mut first_round = true;\nlet ghost mut last_elem: int = -1;'),
+                        dict(after=r'let arxmlevent = self\.next\(lexer\)\?;', text='proof { first_round = false; }'),
                         dict(after=r'let \(sub_elemtype, idx\) = self\.find_element_in_spec_checked\(name, element\.elemtype\)\?;',
                              text='proof { lemma_resolve_any(element.elemtype.typ as int, idx@); }\nlet ghost old_content = element.content@;\nlet ghost old_snf = short_name_found;\nlet ghost prev_idx = elem_idx@;'),
                         dict(after=r'element\.content\.push\(ElementContent::Element\(sub_element\)\);', text='''proof {
@@ -287,7 +281,6 @@ def make_unit(repo_dir):
         }
     }
 }'''),
-                        dict(at='loop_end', loop=0, text='proof { axiom_measure_nonneg(&*lexer); }'),
                         dict(before=r'^\s*element\.content\.push\(ElementContent::CharacterData\(value\)\);', text='let ghost old_content2 = element.content@;'),
                         dict(after=r'element\.content\.push\(ElementContent::CharacterData\(value\)\);', text='''proof {
     let c = element.content@;
@@ -321,15 +314,15 @@ def make_unit(repo_dir):
     root = FnSpec('parse_arxml', F, impl=IMPL_P, ret='r', body_sub=R43, sig_sub=[(r'pub\(crate\) fn', 'pub fn')],
                   ensures=['final(self).strict == old(self).strict',
                            'old(self).strict ==> (r matches Ok(e) ==> name_of(e) == ElementName::Autosar && node_ok(content_of(e), type_of(e), final(self).fileversion as u32))'],
-                  loops={0: dict(invariant=['lexer.inv()', 'self.strict == old(self).strict'], decreases='lexer.measure() + (if token is Comment { 1int } else { 0int })')},
-                  proofs=[dict(after=r'let mut token = self\.next\(&mut lexer\)\?;', text='proof { axiom_measure_nonneg(&lexer); }'),
-                          dict(at='loop_end', loop=0, text='proof { axiom_measure_nonneg(&lexer); }')])
+                  requires=['old(self).buffer.len() <= isize::MAX'],
+                  loops={0: dict(invariant=['lexer.inv()', 'self.strict == old(self).strict', 'lexer.measure() >= 0'], decreases='lexer.measure() + (if token is Comment { 1int } else { 0int })')},
+                  proofs=[])
     u = Unit(name='parseelem', prop='C08', spec=spec, fns=[fn, root],
-             wrap={IMPL_P: "impl<'a> ArxmlParser<'a>", lookups.IMPL_ET: 'impl ElementType', lookups.IMPL_GT: 'impl GroupType'},
+             wrap={IMPL_P: "impl<'a> ArxmlParser<'a>", lexer.IMPL_A: "impl<'a> ArxmlLexer<'a>", lookups.IMPL_ET: 'impl ElementType', lookups.IMPL_GT: 'impl GroupType'},
              dropped=['the element graph: `raw_element.wrap()` and the write guard are replaced by working on the ElementRaw value and wrapping it at the end (vx_wrap); ElementRaw is {elemname, elemtype, content: Vec, attributes, comment}; Cow<str> path is opaque',
                       'block-level leaves (R42): SHORT-NAME path bookkeeping (vx_register_name), reference registration (vx_register_reference), comment text (vx_comment); error payloads opaque (R36)',
                       'callees are leaves with the contracts proved in units lexer / elemcheck / valueparse / lookups; the lexer vocabulary (inv, measure, same_buf, nl) is uninterpreted',
-                      'ASSUMED frame: parse_character_data leaves fileversion unchanged (justified by the syntactic frame scan: fileversion is assigned only in new / parse_file_header); parse_attribute_text: frame clause proved in unit attrparse'])
+                      'parse_file_header is a leaf: sets the file version, leaves `strict` unchanged (frame scan F4)'])
     # leaves
     for name in ('ArxmlParser.next', 'ArxmlParser.error', 'optional_error', 'verify_end_of_input'):
         u.leaves.append((pf[name], 'lexer'))
@@ -340,9 +333,12 @@ def make_unit(repo_dir):
     for name in ('find_element_in_spec_checked', 'check_element_conflict', 'check_multiplicity'):
         u.leaves.append((ec[name], 'elemcheck'))
     pcd = copy.copy(vp['parse_character_data'])
-    pcd.ensures = [pcd.ensures[0], 'final(self).fileversion == old(self).fileversion']
+    pcd.ensures = [pcd.ensures[0]]
     pcd.sig_sub = []
-    u.leaves.append((pcd, 'valueparse (frame clause; fileversion ASSUMED, frame scan)'))
+    u.leaves.append((pcd, 'valueparse (frame clause)'))
+    lx = copy.copy(lexer.NEW)
+    lx.ensures = lx.ensures[:2]
+    u.leaves.append((lx, 'lexer'))
     for name in ('chardata_spec', 'is_ref', 'is_named_in_version'):
         u.leaves.append((lf[name], 'lookups'))
     return u
